@@ -4,6 +4,10 @@ import Amshan.Model.HdlcObs
 import Amshan.Spec.Rfc1662
 import Amshan.Model.HdlcDefs
 import Amshan.Model.P1Obs
+import Amshan.Model.P1Defs
+import Amshan.Model.ProtoInst
+import Amshan.Model.Obis
+import Amshan.Spec.ObisText
 /-
   Line-protocol driver: one request per line on stdin, one answer per line on stdout.
   Imports models and executable specs only (never Props / Lemmas / Mathlib).
@@ -125,6 +129,106 @@ def opInt16 : List String → String
     | none => "bad-args"
   | _ => "bad-args"
 
+/-- readout descriptor: manhex,baud,escshex,identhex,lines,chk   (lines: hex joined by '/', "." = none; chk: N|U|L) -/
+def readoutDescOf? (s : String) : Option P1Spec.ReadoutDesc :=
+  match s.splitOn "," with
+  | [man, baud, escs, ident, lines, chk] =>
+    let linesO : Option (List (List Nat)) := if lines == "." then some [] else (lines.splitOn "/").mapM octetsOfHex?
+    match octetsOfHex? man, baud.toNat?, octetsOfHex? escs, octetsOfHex? ident, linesO with
+    | some man, some baud, some escs, some ident, some lines =>
+      let chk := if chk == "U" then some false else if chk == "L" then some true else none
+      some { man := man, baud := baud, escs := escs, ident := ident, lines := lines, checksum := chk }
+    | _, _, _, _, _ => none
+  | _ => none
+
+/-- p1.clean prehex descs cuts   (descs joined by ';', "." = none) -/
+def opP1Clean : List String → String
+  | [pre, descs, cuts] =>
+    let dsO : Option (List P1Spec.ReadoutDesc) := if descs == "." then some [] else (descs.splitOn ";").mapM readoutDescOf?
+    match octetsOfHex? pre, dsO, cutsOf? cuts with
+    | some pre, some ds, some cuts =>
+      let w := pre ++ ds.flatMap P1Spec.ReadoutDesc.encode
+      let chunks := splitAtCuts w cuts
+      let out := match P1.readAll P1.Reader.init chunks with
+        | .ok (_, outs) => P1.renderReadouts outs.flatten
+        | .error e => "EXC " ++ e.name
+      let spec := P1.renderReadouts (ds.map P1.expectedReadout)
+      let dom := ds.all (fun d => decide d.WF && decide (d.encode.length ≤ Gen.p1Guard)) &&
+        decide (Octets pre) && decide (Gen.p1Start ∉ pre)
+      s!"{hexOfOctets w} | {out} | {spec} | {bool01 dom} | {String.intercalate "," (chunks.map hexOfOctets)}"
+    | _, _, _ => "bad-args"
+  | _ => "bad-args"
+
+def candOf? (s : String) : Option Proto.Rd :=
+  match s with
+  | "H00" => some (Proto.hdlcRd ⟨false, false⟩)
+  | "H01" => some (Proto.hdlcRd ⟨false, true⟩)
+  | "H10" => some (Proto.hdlcRd ⟨true, false⟩)
+  | "H11" => some (Proto.hdlcRd ⟨true, true⟩)
+  | "P" => some Proto.p1Rd
+  | _ => none
+
+def renderItem : Proto.Item → String
+  | .msg m => "M" ++ hexOfOctets m.bytes ++ "/" ++ bool01 m.valid
+  | .payload p => "P" ++ hexOfOctets p
+
+/-- proto kind cands chunks   (kind: message|payload; cands: e.g. H10,P ; "." = none) -/
+def opProto : List String → String
+  | [kind, cands, chunks] =>
+    let candsO : Option (List Proto.Rd) := if cands == "." then some [] else (cands.splitOn ",").mapM candOf?
+    let kindO : Option Proto.Kind := if kind == "message" then some .message else if kind == "payload" then some .payload else none
+    match kindO, candsO, chunksOf? chunks with
+    | some k, some cs, some chs =>
+      let res := Proto.runAll k (Proto.State.init cs) chs
+      let sel := match res.1.selected with | some (i, _) => toString i | none => "N"
+      let items := res.2.map renderItem
+      (if items.isEmpty then "." else String.intercalate " " items) ++ " @" ++ sel
+    | _, _, _ => "bad-args"
+  | _ => "bad-args"
+
+def renderGroups (g : Obis.Groups) : String :=
+  let (a, b, c, d, e, f) := g
+  String.intercalate "," [optNat a, optNat b, toString c, toString d, optNat e, optNat f]
+
+def optNatOf? (s : String) : Option (Option Nat) :=
+  if s == "N" then some none else s.toNat?.map some
+
+def groupsOf? (s : String) : Option Obis.Groups :=
+  match s.splitOn "," with
+  | [a, b, c, d, e, f] =>
+    match optNatOf? a, optNatOf? b, c.toNat?, d.toNat?, optNatOf? e, optNatOf? f with
+    | some a, some b, some c, some d, some e, some f => some (a, b, c, d, e, f)
+    | _, _, _, _, _, _ => none
+  | _ => none
+
+/-- obis.parse hex(text) -> groups | ValueError ; hasDigitDotDigit -/
+def opObisParse : List String → String
+  | [hex] =>
+    match octetsOfHex? hex with
+    | some s => P1.excOr renderGroups (Obis.parse s) ++ " " ++ bool01 (ObisSpec.hasDigitDotDigit s)
+    | none => "bad-args"
+  | _ => "bad-args"
+
+/-- obis.fmt groups -> reduced str, str, cde str, spec reduced text (when groups ≤ 255) -/
+def opObisFmt : List String → String
+  | [g] =>
+    match groupsOf? g with
+    | some g =>
+      let (a, b, c, d, e, f) := g
+      String.intercalate " " [hexOfOctets (Obis.toReducedStr g), hexOfOctets (Obis.toStr g), hexOfOctets (Obis.cdeStr g),
+        hexOfOctets (ObisSpec.reduced a b c d e f),
+        P1.excOr renderGroups (Obis.parse (Obis.toReducedStr g))]
+    | none => "bad-args"
+  | _ => "bad-args"
+
+/-- obis.eq groups hex(text) -/
+def opObisEq : List String → String
+  | [g, hex] =>
+    match groupsOf? g, octetsOfHex? hex with
+    | some g, some s => bool01 (Obis.eqStr g s)
+    | _, _ => "bad-args"
+  | _ => "bad-args"
+
 def dispatch (line : String) : String :=
   match (line.trimAscii.toString.splitOn " ").filter (· ≠ "") with
   | [] => "bad-op"
@@ -136,6 +240,11 @@ def dispatch (line : String) : String :=
     | "hdlc.read" => opHdlcRead args
     | "hdlc.clean" => opHdlcClean args
     | "p1.read" => opP1Read args
+    | "proto" => opProto args
+    | "obis.parse" => opObisParse args
+    | "obis.fmt" => opObisFmt args
+    | "obis.eq" => opObisEq args
+    | "p1.clean" => opP1Clean args
     | "p1.readout" => opP1Readout args
     | "p1.ident" => opP1Ident args
     | "py.int16" => opInt16 args
